@@ -9,6 +9,7 @@ part of the property is decided by the correspondence stream only.
 import Anko.Proofs.Scanner
 import Anko.Proofs.ScanConcat
 import Anko.Gen.ParserGen
+import Anko.Proofs.ScanTables
 
 namespace Anko.C15
 open Anko.Scan
@@ -177,6 +178,37 @@ example : (lex "x = 1 // c").2 = none ∧ (lex "y").2 = none ∧
 example : ((lex "a /* x **/ + 1\n\"s\"").1.map (·.pos)) = [⟨1, 1⟩, ⟨1, 12⟩, ⟨1, 14⟩, ⟨1, 15⟩, ⟨2, 1⟩, ⟨2, 4⟩] := by decide +kernel
 example : (lex "x = \"abc").2 = some (.msg "unexpected EOF", ⟨1, 5⟩) := by decide +kernel
 example : (lex "/* never closed").2 = some (.msg "unexpected EOF", ⟨1, 1⟩) := by decide +kernel
+
+
+/-! ### the scanner model's tables are the ones parser/lexer.go declares (regenerated on every run) -/
+
+/-- The keyword table of the model is `opName` of lexer.go (translated on every run). -/
+theorem keywords_are_the_lexers : Scan.keywords = Gen.Lexer.keywords := Scan.keywords_eq
+
+/-- The character classes of the model are the lexer's predicates - translated from the source expression by expression -
+on EVERY character (and on end of input), not on samples; for letters on the ASCII range the model is stated for. -/
+theorem character_classes_are_the_lexers (c : Char) :
+    Scan.isDigit c = Gen.Lexer.isDigit c.toNat ∧ Scan.isHex c = Gen.Lexer.isHex c.toNat ∧
+    Scan.isBinary c = Gen.Lexer.isBinary c.toNat ∧ Scan.isBlank c = Gen.Lexer.isBlank c.toNat ∧
+    Scan.isLetter c = Gen.Lexer.isLetter Scan.asciiLetter c.toNat ∧
+    Scan.isEOL (some c) = Gen.Lexer.isEOL c.toNat ∧ Scan.isEOL none = Gen.Lexer.isEOL (-1) :=
+  ⟨Scan.isDigit_eq c, Scan.isHex_eq c, Scan.isBinary_eq c, Scan.isBlank_eq c, Scan.isLetter_eq c, Scan.isEOL_eq (some c), Scan.isEOL_eq none⟩
+
+/-- The operator switch: the model tries, after each first character, exactly the second characters the lexer's switch
+lists, with the lexer's spellings; the special cases and the single-character tokens are the lexer's as well. -/
+theorem operator_switch_is_the_lexers :
+    Scan.opTable = Gen.Lexer.twoCharOps.filter (fun e => !Gen.Lexer.specialFirstChars.contains e.1) ∧
+    Gen.Lexer.specialFirstChars = ['#', '=', '/', '.'] ∧
+    Gen.Lexer.twoCharOps.lookup '=' = some [('=', "==")] ∧ Gen.Lexer.twoCharOps.lookup '/' = some [('=', "/=")] ∧
+    Gen.Lexer.singleCharTokens = ['\n', '(', ')', ':', ';', '%', '{', '}', '[', ']', ',', '^'] :=
+  ⟨Scan.opTable_eq, Scan.special_cases_eq⟩
+
+/-- ... and `scan` uses that table: on a first character of the table it is `twoChar` with the table's alternatives. -/
+theorem scan_uses_the_operator_table (c : Char) (alts : List (Char × String)) (hm : (c, alts) ∈ Scan.opTable) (n : Nat)
+    (s : Scan.S) (hp : s.peek = some c) :
+    Scan.scan (n + 1) s = .ok (⟨(Scan.twoChar s c alts).1, s.pos⟩, (Scan.twoChar s c alts).2) :=
+  Scan.scan_uses_opTable c alts hm n s hp
+example : ('<', [('-', "<-"), ('=', "<="), ('<', "<<")]) ∈ Scan.opTable := by decide
 
 /-- The parser that is compiled IS the one generated from the grammar file: re-running goyacc on
 parser/parser.go.y reproduces the committed parser/parser.go byte for byte (regenerated on every
